@@ -19,7 +19,7 @@ StrOK(r) ==
   /\ (p[1] = "throw" => r.out = "throw" /\ r.untouched)
   /\ (p[1] = "ok" /\ Canonical(r.code) => r.out = "ok")
   /\ (r.out = "ok" => p[1] = "ok" /\ r.y = p[2] /\ r.m = p[3] /\ r.d = p[4])
-\* fractionalyear: value = y + num/den, compared in units of 1e-9 year (the driver logs floor and nano-fraction)
+\* fractionalyear: value = y + num/den, compared in units of 1e-6 year (the driver logs floor and nano-fraction; 32-bit TLC integers)
 FyOK(r) ==
   LET f == FracYear(r.code) IN
   /\ r.fout \in {"ok", "throw"}
@@ -27,7 +27,7 @@ FyOK(r) ==
   /\ (f[1] = "num" => r.fout = "ok" /\ r.fi = f[2] * f[3] /\ r.fn = 0 /\ (f[3] = 0 => r.fneg = (f[2] = -1)))
   /\ (f[1] = "date" /\ Canonical(r.code) => r.fout = "ok")
   /\ (f[1] = "date" /\ r.fout = "ok" =>
-        LET q == YearFrac(f[2], f[3], f[4])  e == (q[1] * 1000000000) \div q[2] IN r.fi = f[2] /\ r.fn >= e - 1 /\ r.fn <= e + 1)
+        LET q == YearFrac(f[2], f[3], f[4])  e == (q[1] * 1000000) \div q[2]  o == r.fn \div 1000 IN r.fi = f[2] /\ o >= e - 1 /\ o <= e + 1)
 OnlyDateChars(s) == \A i \in 1..Len(s) : Digit(s[i]) \/ s[i] = 45
 
 Obligation(r) ==
